@@ -26,7 +26,7 @@ from symx import Symx, Budget, K, render, lit_truth   # noqa: E402
 
 META = {
     'level': 'other',
-    'decides': 'for ADD..SAR: constant gas, stack arity, fork gate, which ruint primitive is applied to which operands in which order under which guard (per guard assignment), and the sign logic of i256_sign / i256_cmp / i256_div / i256_mod over every abstract sign cell',
+    'decides': 'for ADD..SAR: constant gas, stack arity, fork gate, which ruint primitive is applied to which operands in which order under which guard (per guard assignment), and the sign logic of i256_sign / i256_cmp / i256_div / i256_mod over every abstract sign cell; the gas EXP charges (exp_cost table per fork and log2floor, C14)',
     'does_not_decide': 'the numerical correctness of the ruint primitives themselves (external crate, taken as axioms); equality with unbounded-integer arithmetic is derived from those axioms, not computed',
     'explanation': 'Path enumeration with partial evaluation of each handler; canonical terms over the popped operands; truth-table comparison against reference expressions; abstract-cell evaluation of the signed helpers with models for sign tests.',
 }
